@@ -65,6 +65,20 @@ impl TlDesc {
             Repeat::Infinite => f64::INFINITY,
         }
     }
+    /// Are cycle or delay off the 1/512 s grid? Then the library's f32 total may be an ulp away from the exact
+    /// one, and at the f32 instant of the total itself the position computed by `time % cycle` is the start of a
+    /// further cycle (the end-instant artefact of DESIGN §9.8): the end clauses carry a band of two ulp.
+    pub fn off_grid(&self) -> bool {
+        (self.cycle * 512.0).fract() != 0.0 || (self.delay * 512.0).fract() != 0.0
+    }
+    /// Half-width of the band around the total in which the end clauses are not demanded (0 on the grid).
+    pub fn end_band(&self) -> f64 {
+        if self.off_grid() && self.total().is_finite() {
+            2.0 * mina_verif::util::ulp32(self.total() as f32) as f64
+        } else {
+            0.0
+        }
+    }
     pub fn json(&self) -> J {
         J::obj(vec![
             ("delay", J::F(self.delay as f64)),
@@ -135,6 +149,11 @@ pub fn pool() -> Vec<TlDesc> {
     }
     v.push(TlDesc { delay: 0.0, cycle: 0.125, repeat: Repeat::Times(0), reverse: false, variant: 1 });
     v.push(TlDesc { delay: 7.5, cycle: 8.0, repeat: Repeat::None, reverse: false, variant: 0 });
+    // off the dyadic grid: the f32 total `delay + cycle x (repeats+1)` is not exact and not a multiple of the cycle
+    // (see `TlDesc::off_grid`: decisions within two ulp of the total are not demanded for these)
+    v.push(TlDesc { delay: 0.0, cycle: 0.1, repeat: Repeat::Times(2), reverse: false, variant: 0 });
+    v.push(TlDesc { delay: 0.25, cycle: 0.3, repeat: Repeat::Times(1), reverse: false, variant: 1 });
+    v.push(TlDesc { delay: 0.0, cycle: 0.7, repeat: Repeat::Times(2), reverse: true, variant: 2 });
     v
 }
 
